@@ -33,11 +33,11 @@ def run(chk, replay=None):
                        "non-trivial = total not divisible by world or total < world")
     chk.model("MC_Split", what="MC_Split: Tiles(t,w) for t<=200, w<=40")
     apalache(chk)
-    exe = vt.build("drv_c16", ["drv_c16.cpp"], flags=["-I" + os.path.join(vt.HARNESS, "mpishim")])
+    exe = vt.build(*BUILDS[0][0], **BUILDS[0][1])
     trace = replay or chk.path("trace.ndjson")
     if not replay:
         tmax, wmax, nbig = (64, 33, 400) if thorough else (40, 17, 120)
-        vt.run([exe, trace, str(tmax), str(wmax), str(chk.seed), str(nbig)], timeout=900)
+        vt.run([exe, trace, str(tmax), str(wmax), str(chk.seed), str(nbig)] + (["big"] if thorough else []), timeout=1800)
     rows = vt.read_ndjson(trace)
     cases = set()
     for e in rows:
@@ -74,4 +74,4 @@ def selftest(chk, rows):
 
 def replay(chk, path):
     run(chk, replay=path)
-BUILDS = [(("drv_c16", ["drv_c16.cpp"]), {"flags": ["-I" + os.path.join(vt.HARNESS, "mpishim")]})]
+BUILDS = [(("drv_c16", ["drv_c16.cpp"]), {"flags": ["-O2", "-I" + os.path.join(vt.HARNESS, "mpishim")]})]
